@@ -17,33 +17,66 @@ from . import expr_common as X
 RULE = ("arithmetic-heavy type-directed expression trees (constants, variables, nested and foldable subexpressions; depth "
         "<= 4 quick / 5 thorough) under every one of the 512 subsets of the 7 binary and 2 unary interceptable operators "
         "(each subset at least once, the rest random), placed as {{ e }}, as a filter argument, a macro default, a {% set %} "
-        "value, an {% if %} test and a loop filter; hooks record (operator, operands) and add 1000 to integer results. "
+        "value, an {% if %} test, a loop filter, a with value, a call block body, an imported macro, an included template and an "
+        "overriding block of a child template; environment kinds: intercepted sets on the class / on the instance, "
+        "ImmutableSandboxedEnvironment, async, overlay, hooks through binop_table / unop_table; hooks record (operator, operands) and add 1000 to integer results. "
         "distinct = (subset, position, source); non-trivial = at least one hook application predicted.")
 
 BIN = list(X.BINOPS)      # add sub mul div floordiv mod pow
 UN = list(X.UNOPS)        # neg pos
-POSITIONS = ["print", "filter-arg", "macro-default", "set", "if", "loop-filter"]
+POSITIONS = ["print", "filter-arg", "macro-default", "set", "if", "loop-filter", "with", "callblock", "import", "include", "extends"]
 
 
-def make_env(ib, iu, log):
-    from jinja2.sandbox import SandboxedEnvironment
+ENV_KINDS = ["class", "instance", "immutable", "async", "overlay", "table"]
 
-    class Rec(SandboxedEnvironment):
-        intercepted_binops = frozenset(X.BINOPS[o] for o in ib)
-        intercepted_unops = frozenset(X.UNOPS[o] for o in iu)
 
-        def call_binop(self, context, operator, left, right):
-            log.append(("bin", operator, left, right))
-            r = super().call_binop(context, operator, left, right)
-            return r + 1000 if type(r) is int else r
+def make_env(ib, iu, log, kind="class"):
+    """a recording-and-perturbing sandbox of one of the environment kinds: intercepted sets on the class / on the
+    instance, ImmutableSandboxedEnvironment, async, an overlay of a configured environment, hooks installed through
+    binop_table / unop_table instead of overriding call_binop / call_unop"""
+    import jinja2
+    from jinja2.sandbox import ImmutableSandboxedEnvironment, SandboxedEnvironment
+    bset = frozenset(X.BINOPS[o] for o in ib)
+    uset = frozenset(X.UNOPS[o] for o in iu)
+    base = ImmutableSandboxedEnvironment if kind == "immutable" else SandboxedEnvironment
+    loader = jinja2.DictLoader({})
 
-        def call_unop(self, context, operator, arg):
-            log.append(("un", operator, arg))
-            r = super().call_unop(context, operator, arg)
-            return r + 1000 if type(r) is int else r
-    env = Rec()
+    def pert(r):
+        return r + 1000 if type(r) is int else r
+
+    if kind == "table":
+        class Rec(base):
+            intercepted_binops = bset
+            intercepted_unops = uset
+        env = Rec(loader=loader)
+        for sym in list(env.binop_table):
+            env.binop_table[sym] = (lambda f, sym: lambda l, r: (log.append(("bin", sym, l, r)), pert(f(l, r)))[1])(env.binop_table[sym], sym)
+        for sym in list(env.unop_table):
+            env.unop_table[sym] = (lambda f, sym: lambda a: (log.append(("un", sym, a)), pert(f(a)))[1])(env.unop_table[sym], sym)
+    else:
+        class Rec(base):
+            if kind != "instance":
+                intercepted_binops = bset
+                intercepted_unops = uset
+
+            def call_binop(self, context, operator, left, right):
+                log.append(("bin", operator, left, right))
+                return pert(super().call_binop(context, operator, left, right))
+
+            def call_unop(self, context, operator, arg):
+                log.append(("un", operator, arg))
+                return pert(super().call_unop(context, operator, arg))
+        env = Rec(loader=loader, enable_async=(kind == "async"))
+        if kind == "instance":
+            env.intercepted_binops = bset
+            env.intercepted_unops = uset
+        if kind == "overlay":
+            env = env.overlay(trim_blocks=True)
     env.globals.clear()
     return env
+
+
+LOADER_POSITIONS = {"import", "include", "extends"}
 
 
 def template_for(pos, src):
@@ -60,7 +93,41 @@ def template_for(pos, src):
         return "{% if " + src + " %}T{% else %}F{% endif %}"
     if pos == "loop-filter":
         return "{% for it in [1] if " + src + " %}T{% else %}F{% endfor %}"
+    if pos == "with":
+        return "{% with ww = " + src + " %}{{ ww }}{% endwith %}"
+    if pos == "callblock":
+        return "{% macro mc() %}{{ caller() }}{% endmacro %}{% call mc() %}{{ " + src + " }}{% endcall %}"
+    if pos == "import":
+        return "{% from 'lib' import ml with context %}{{ ml() }}"
+    if pos == "include":
+        return "{% include 'lib' %}"
+    if pos == "extends":
+        return "{% extends 'base' %}{% block bb %}{{ " + src + " }}{% endblock %}"
     raise ValueError(pos)
+
+
+def install_templates(env, pos, src):
+    """the other templates a loader position needs"""
+    src = "(" + src + ")"
+    m = env.loader.mapping if hasattr(env.loader, "mapping") else None
+    if m is None:
+        return
+    m.clear()
+    if pos == "import":
+        m["lib"] = "{% macro ml() %}{{ " + src + " }}{% endmacro %}"
+    elif pos == "include":
+        m["lib"] = "{{ " + src + " }}"
+    elif pos == "extends":
+        m["base"] = "[{% block bb %}{% endblock %}]"
+    env.cache.clear() if env.cache is not None else None
+
+
+def render_pos(env, pos, src, data):
+    install_templates(env, pos, src)
+    r = X.real_render(env, template_for(pos, src), data)
+    if pos == "extends" and r[0] == "ok" and r[1].startswith("[") and r[1].endswith("]"):
+        r = ("ok", r[1][1:-1])
+    return r
 
 
 def one_case(ctx, e, ds, ib, iu, pos, ev_line, gen_line, fold_line):
@@ -77,10 +144,11 @@ def one_case(ctx, e, ds, ib, iu, pos, ev_line, gen_line, fold_line):
         # hook applications the model predicts UP TO that point must be a prefix of what the hooks saw
         want_prefix = [ev for ev in X.canon_log(f["SL"]) if ev[0] != "call"]
         log = []
-        env = make_env(ib, iu, log)
+        kind = ENV_KINDS[ds % len(ENV_KINDS)]
+        env = make_env(ib, iu, log, kind)
         data = X.make_data(random.Random(ds), [])
         tsrc = template_for(pos, src)
-        rr = X.real_render(env, tsrc, data)
+        rr = render_pos(env, pos, src, data)
         got = X.canon_real_log(log)
         ctx.case(key=(tuple(ib), tuple(iu), pos, src) if want_prefix else None)
         ctx.count("opaque_prefix_checked")
@@ -94,14 +162,16 @@ def one_case(ctx, e, ds, ib, iu, pos, ev_line, gen_line, fold_line):
     want_log = [ev for ev in X.canon_log(f["SL"]) if ev[0] != "call"]
     st = X.canon_text(f["ST"])
     log = []
-    env = make_env(ib, iu, log)
+    kind = ENV_KINDS[ds % len(ENV_KINDS)]
+    env = make_env(ib, iu, log, kind)
     data = X.make_data(random.Random(ds), [])
     tsrc = template_for(pos, src)
-    rr = X.real_render(env, tsrc, data)
+    rr = render_pos(env, pos, src, data)
     got = [ev for ev in X.canon_real_log(log)]
     ctx.case(sample={"template": tsrc, "intercepted": ib + iu, "hook_log": f["SL"][:200], "text": repr(rr)} if want_log and len(src) > 20 else None,
              key=(tuple(ib), tuple(iu), pos, src) if want_log else None)
     ctx.count("pos_" + pos)
+    ctx.count("env_" + kind)
     ctx.count("subset_size_%d" % (len(ib) + len(iu)))
     ok = True
     sig = "C20:" + pos + ":" + ",".join(ib + iu) + ":" + src
@@ -116,7 +186,7 @@ def one_case(ctx, e, ds, ib, iu, pos, ev_line, gen_line, fold_line):
                 "the hook saw an application that the documented evaluation does not make" if extra else
                 "hook applications in a different order")
         ctx.reject(dict(case, want=repr(want_log)[:600], got=repr(got)[:600]), what + f": predicted {len(want_log)} applications, observed {len(got)}", sig)
-    if pos in ("print", "set", "macro-default", "filter-arg"):
+    if pos in ("print", "set", "macro-default", "filter-arg", "with", "callblock", "import", "include", "extends"):
         exp = st
         if pos == "filter-arg" and spec[0] == "ok" and spec[1][0] == "u":
             exp = ("ok", "")
@@ -124,7 +194,7 @@ def one_case(ctx, e, ds, ib, iu, pos, ev_line, gen_line, fold_line):
             ok = False
             ctx.reject(dict(case, want=repr(exp), got=repr(rr)), f"rendered result {rr!r} is not the hooks' result {exp!r}", sig)
     # ---- K-gen (print position)
-    if pos == "print" and fold_line.endswith("O 0") and "(F " not in fold_line:
+    if pos == "print" and kind in ("class", "instance", "immutable", "table") and fold_line.endswith("O 0") and "(F " not in fold_line:
         real_code = X.real_output_code(env, tsrc)
         if gen_line.startswith("C "):
             m = ("C", X.canon_text("ok " + gen_line[2:])[1])
